@@ -87,6 +87,10 @@ func GenAnimSpec(r *RNG, maxSide, maxFrames int, lossless bool, alphaPct int) An
 		f := AFrame{Seed: r.Next(), Dur: animDurations[r.Intn(len(animDurations))]}
 		if r.Pct(70) {
 			f.Dur = r.Pick(10, 20, 40, 100, 1000)
+		} else if r.Pct(4) {
+			// a display time one stored frame cannot carry (24 bits of milliseconds): the
+			// encoder may refuse it, it must not shorten it silently
+			f.Dur = r.Pick(1<<24, 1<<24+1, 20000000, 1<<25+7)
 		}
 		if i == 0 {
 			f.Mut = "first"
